@@ -155,6 +155,10 @@ def extract_selected_variable_and_expression(symbolic_cls: Type, domain: Optiona
     if domain and is_iterable(domain.domain):
         # do not touch the caller's From object: it may be shared by several variables (and the filter is one-shot).
         domain = From(filter(lambda v: isinstance(v, symbolic_cls), domain.domain))
+    elif domain and not isinstance(domain.domain, (SymbolicExpression, symbolic_cls)):
+        # a domain that is a single value (not a collection of values) is filtered by type like any other domain: a value
+        # of another type is not a member, the variable ranges over nothing.
+        domain = From(iter(()))
 
     var = Variable(symbolic_cls.__name__, symbolic_cls, _domain_source_=domain, _predicate_type_=predicate_type,
                    _is_indexed_=index_class_cache(symbolic_cls))
